@@ -27,19 +27,7 @@ def graph_param(body):
 
 
 def _reach_without_edge(body, edge):
-    a, s = edge
-    seen = set()
-    st = [0]
-    while st:
-        x = st.pop()
-        if x in seen:
-            continue
-        seen.add(x)
-        for y in body.succ(x):
-            if x == a and y == s:
-                continue
-            st.append(y)
-    return seen
+    return body.reach_avoiding_edges([edge])
 
 
 def ok_producers(body):
